@@ -130,18 +130,21 @@ CHECKS = {
     "C39": ("mc-store", MC, "explicit-state BFS (E2) over trade sequences on the real update_leaderboard plus E1 on extend_competition_time",
             "Every sequence of counted trades by seven traders with three or four volume increments to the stated depth: at most five distinct entries, sorted, latest volumes, filled with the top traders, excluded traders not above the last entry; extensions over end time/duration/cap/trigger time at the i64 limits never move the end earlier nor past max(old end, now + cap).",
             "merge-window/threshold bookkeeping of the on_executed handler is not explored", "§5 C39"),
-    "C19": ("mc-store", E1, "exhaustive enumeration (E1) of the instruction x signer matrix through the real program entrypoints in the in-process runtime",
-            "Every probed privileged store instruction (named in the evidence) is executed with valid accounts by the entitled signer (passes authorisation) and by a stranger, the admin and the single-role holder of each of nine other roles (must be rejected; rejected instructions commit nothing). Timelock instructions are covered by C36, market config updates by C20, execute/close by C23.",
+    "C19": ("mc-store", E1, "exhaustive enumeration (E1) of the instruction x signer matrix plus explicit-state BFS (E3) of authority/receiver hand-over histories, through the real program entrypoints in the in-process runtime",
+            "Every probed privileged store instruction (named in the evidence) is executed with valid accounts by the entitled signer (passes authorisation) and by a stranger, the admin and the single-role holder of each of nine other roles (must be rejected; rejected instructions commit nothing); the moving offices (store authority, fee receiver) are explored breadth first as nominate/accept histories by three actors to a fixpoint against a reference. Timelock instructions are covered by C36, market config updates by C20, execute/close by C23.",
             "claims only the instructions listed in the evidence (34 of the store's guarded instructions); GLV, virtual inventory, position-order, treasury, liquidity-provider and competition administration are not probed", "§6 C19"),
     "C40": ("mc-store", E1, "exhaustive differential enumeration (E1) of program vs SDK on identical account bytes",
             "Sizes of every zero-copy account declared for the SDK; every model accessor of the program Market vs the SDK MarketModel over a family of market contents (all keys populated, closed x closed-params x every flag, all pools populated, pure market); swaps and fee-state updates on a real RevertibleMarket vs the SDK model under the same stubbed time; real deposit/withdrawal instructions vs the SDK simulation (amounts and resulting views).",
             "position increase/decrease differential not covered; discount comparison is C31", "§5 C40"),
     "C44": ("mc-store", E1, "exhaustive enumeration (E1) of swap paths executed through real deposit instructions in the in-process runtime",
-            "Every sequence of 0..3 markets out of four over three tokens (duplicates, non-chaining paths and paths through the deposit market included) x initial token x amounts as the swap path of a real create_deposit + execute_deposit: creation accepts exactly the duplicate-free chaining paths ending in the market's long token; after completion recorded balances and vaults move together, markets outside the path are untouched and every hop moved exactly the amounts of the C40-validated SDK swap in order; stored paths tampered to hold a duplicate never complete.",
+            "Every sequence of 0..3 markets out of five over three tokens (duplicates, non-chaining paths and paths through the deposit market included) x initial token x amounts as the swap path of a real create_deposit + execute_deposit: creation accepts exactly the duplicate-free chaining paths ending in the market's long token; after completion recorded balances and vaults move together, markets outside the path are untouched and every hop moved exactly the amounts of the C40-validated SDK swap in order; stored paths tampered to hold a duplicate (adjacent, or revisiting [p,q,p] where every hop chains) never complete.",
             "paths of length 4-10, short-side paths, withdrawals and orders (same SwapMarkets code) are not enumerated", "§5 C44"),
     "C37": ("mc-store", E1, "exhaustive enumeration (E1) of factor setters and of claim orders executed through the real treasury instruction in the in-process runtime",
             "Config::set_gt_factor / set_buyback_factor over boundary factors from every reachable current value; the real complete_gt_exchange instruction (CPI into the store's close_gt_exchange, SPL transfers signed by the bank PDA) for all six claim orders of three claimants over a grid of one- and two-token bank balances and GT amounts: each claim = floor(balance*gt/remaining), never above holdings, at least the floor share of the original, recorded balance follows the vault, last claim drains, no double claim.",
             "bank / exchange / treasury config accounts fabricated through hooked state functions; deposits into the bank and confirmation through treasury instructions are not explored", "§5 C37"),
+    "C45": ("mc-store", MC, "explicit-state BFS (E3) over real GLV deposit/withdrawal instructions against a big-integer pricing reference, plus exhaustive enumeration (E1) of GLV composition instructions and of the balance-cap function",
+            "initialize_glv over every ordered selection of up to three of six markets and insert_glv_market of every market (accepted exactly for distinct markets with the GLV's tokens; stored markets re-read and compared); validate_market_token_balance over boundary caps/balances/pool values/supplies against the definition; breadth-first histories of GLV deposits (market/long/short/mixed), withdrawals, spread prices, caps and fabricated open interest through the real create/execute/close instructions: caps hold after every deposit, minted and paid amounts equal the reference (vault maximised for deposits, minimised for withdrawals), vaults back recorded balances, and ten deposit-then-withdraw round trips from every reached state never return more market tokens (zero-supply residue: known finding).",
+            "GLV shifts and swap paths inside GLV actions are not explored; pool values of the reference come from the C40-validated SDK model; clock fixed", "§10 C45"),
 }
 
 NOT_YET = "no check built yet in this round (planned in DESIGN.md); not claimed"
